@@ -10,7 +10,8 @@
    Conventions: sizes/offsets are Z (size_t values; the 2^64 wrap of `sum` is unreachable for
    elements that describe real memory — the theorems carry the guard "elements lie inside
    their buffers", which bounds every sum by the total memory).  Asserts are OFF (-DNDEBUG).
-   The model follows the FIXED iov_iterator constructor (repo_patches/C14-fix-iov-iterator-empty.diff). *)
+   The model follows the FIXED iov_iterator constructor (repo_patches/C14-fix-iov-iterator-empty.diff) and the FIXED
+   extract_front/back(bytes, iovector ptr) (repo_patches/C14-fix-extract-into-iovector-capacity.diff). *)
 From Coq Require Import ZArith List Bool.
 Import ListNotations.
 Local Open Scope Z_scope.
@@ -477,6 +478,31 @@ Definition o_truncate (chunk : Z) (st : store) (iv : iovector) (size : Z) : opti
   | Some (st2, iv2, r2) => Some (st2, iv2, ret + r2)
   end.
 
+(* iovector.h:508-516 / 602-610: iov->resize(iovcnt()) (unchecked: the assert is off), vi = iov->view(),
+   va.extract_front/back(bytes, &vi), re-derive the window, if (ret >= 0) iov->update(vi).
+   dst = new_iovector(cap2, rf2): its out slots are iovs[rf2 .. rf2+iovcnt()); the front variant fills them upwards
+   from rf2, the back variant downwards from rf2+iovcnt()-1; writing a slot >= cap2 is out of bounds (None).
+   Result: (source view afterwards, elements of dst, return value). *)
+Definition xfo_body (v : view) (n cap2 rf2 : Z) : option (view * view * Z) :=
+  let nn := zlen v in
+  match do_extract_front (cb_view_front nn) v n [] with
+  | XOob => None
+  | XNeg v' a => if cap2 <? rf2 + zlen a then None else Some (v', repeat null_iov (Z.to_nat nn), -1)
+  | XDone v' rem a => if cap2 <? rf2 + zlen a then None else Some (v', a, n - rem)
+  end.
+Definition xbo_body (v : view) (n cap2 rf2 : Z) : option (view * view * Z) :=
+  let nn := zlen v in
+  match do_extract_back (cb_view_back nn) v n [] with
+  | XOob => None
+  | XNeg v' a => if (cap2 <? rf2 + nn) && (0 <? zlen a) then None else Some (v', repeat null_iov (Z.to_nat nn), -1)
+  | XDone v' rem a => if (cap2 <? rf2 + nn) && (0 <? zlen a) then None else Some (v', a, n - rem)
+  end.
+(* the unfixed wrappers (no capacity guard), kept for no_oob_extract_into_refuted *)
+Definition old_extract_front_into (v : view) (n cap2 rf2 : Z) : option (view * view * Z) :=
+  if n =? 0 then Some (v, [], 0) else xfo_body v n cap2 rf2.
+Definition old_extract_back_into (v : view) (n cap2 rf2 : Z) : option (view * view * Z) :=
+  if n =? 0 then Some (v, [], 0) else xbo_body v n cap2 rf2.
+
 (* ------------------------------------------------------------------ the test machine *)
 (* One vector under test (a plain iovector_view over an exact-size iovec array, or an owning
    iovector created by new_iovector(cap, reserve_front) with the harness allocator), the
@@ -504,8 +530,8 @@ Inductive op :=
 | OPushB (size : Z) | OPushF (size : Z)         (* push_back/front(buf, size), fresh buffer (owning only) *)
 | OPushBA (bytes : Z) | OPushFA (bytes : Z)     (* push_back/front(bytes): allocating (owning only) *)
 | OPopF | OPopB | OClear                        (* owning only *)
-| OXFO (n slack rf2 : Z)               (* extract_front(n, iovector* dst): dst = fresh new_iovector(rf2 + iovcnt() + slack, rf2) (owning only) *)
-| OXBO (n slack rf2 : Z).              (* extract_back(n, iovector* dst) *)
+| OXFO (n cap2 rf2 : Z)                (* extract_front(n, iovector* dst): dst = fresh new_iovector(cap2, rf2) (owning only) *)
+| OXBO (n cap2 rf2 : Z).              (* extract_back(n, iovector* dst) *)
 
 (* what an operation returns: value, pointer (continuous extraction), memory regions whose
    content is part of the observable result (destination buffers / the returned pointer) *)
@@ -716,37 +742,26 @@ Definition step (m : machine) (o : op) : option (machine * obs) :=
   | OPopF => if m_own m then let '(iv', r) := o_pop_front iv in Some (set_main m st iv', mkObs r None []) else ret_only m NA
   | OPopB => if m_own m then let '(iv', r) := o_pop_back iv in Some (set_main m st iv', mkObs r None []) else ret_only m NA
   | OClear => if m_own m then Some (set_main m st (o_clear iv), mkObs 0 None []) else ret_only m NA
-  (* iovector.h:503-517: iov->resize(iovcnt()) (unchecked: assert off), vi = iov->view(), va.extract_front(bytes, &vi),
-     iov_begin = iov_end - va.iovcnt, if (ret >= 0) iov->update(vi).  The destination's elements are reported as the out view.
-     Slots rf2 .. rf2+|written| of the destination array are written: beyond cap2 that is out of bounds. *)
-  | OXFO n slack rf2 =>
-      if m_own m then
-        if n =? 0 then Some (set_all m st iv [], mkObs 0 None [])           (* if (!bytes) return 0 *)
-        else
-          let nn := zlen v in
-          let cap2 := rf2 + nn + slack in
-          match do_extract_front (cb_view_front nn) v n [] with
-          | XOob => None
-          | XNeg v' a => if cap2 <? rf2 + zlen a then None
-                         else Some (set_all m st (upd_front iv v') (nulls nn), mkObs (-1) None [])
-          | XDone v' rem a => if cap2 <? rf2 + zlen a then None
-                              else Some (set_all m st (upd_front iv v') a, mkObs (n - rem) None [])
-          end
-      else ret_only m NA
-  (* iovector.h:597-611: the same with extract_back; the out entries are written from slot rf2+iovcnt()-1 downwards *)
-  | OXBO n slack rf2 =>
+  (* iovector.h:503-519 (FIXED: repo_patches/C14-fix-extract-into-iovector-capacity.diff):
+     if (!bytes) return 0; if (iovcnt() > iov->capacity - iov->iov_begin) return -1; then [xfo_body] *)
+  | OXFO n cap2 rf2 =>
       if m_own m then
         if n =? 0 then Some (set_all m st iv [], mkObs 0 None [])
-        else
-          let nn := zlen v in
-          let cap2 := rf2 + nn + slack in
-          match do_extract_back (cb_view_back nn) v n [] with
-          | XOob => None
-          | XNeg v' a => if (cap2 <? rf2 + nn) && (0 <? zlen a) then None
-                         else Some (set_all m st (upd_back iv v') (nulls nn), mkObs (-1) None [])
-          | XDone v' rem a => if (cap2 <? rf2 + nn) && (0 <? zlen a) then None
-                              else Some (set_all m st (upd_back iv v') a, mkObs (n - rem) None [])
-          end
+        else if cap2 - rf2 <? zlen v then Some (set_all m st iv [], mkObs (-1) None [])
+        else match xfo_body v n cap2 rf2 with
+             | None => None
+             | Some (v', a, r) => Some (set_all m st (upd_front iv v') a, mkObs r None [])
+             end
+      else ret_only m NA
+  (* iovector.h:597-613: the same with extract_back *)
+  | OXBO n cap2 rf2 =>
+      if m_own m then
+        if n =? 0 then Some (set_all m st iv [], mkObs 0 None [])
+        else if cap2 - rf2 <? zlen v then Some (set_all m st iv [], mkObs (-1) None [])
+        else match xbo_body v n cap2 rf2 with
+             | None => None
+             | Some (v', a, r) => Some (set_all m st (upd_back iv v') a, mkObs r None [])
+             end
       else ret_only m NA
   end.
 
